@@ -124,5 +124,22 @@ Definition run_c15 (w : wire) : wire :=
                    | Ok m' => 0 :: dump m'
                    | Fail => [33] | Throw => [32]
                    end)
+  (* tool chain: save fa (API), om_mesh_convert fa->fb, om_mesh_convert fb->fc, load fc (API); mesh before and after *)
+  | 6 :: w => run_dec (do fa <- getN; do fb <- getN; do fc <- getN; do flags <- getN; do id <- getN; do m <- getMeshIn;
+                       do ta <- getTable; do tb <- getTable; do tc <- getTable; ret (fa, fb, fc, flags, m, ta, tb, tc)) w
+                (fun '(fa, fb, fc, flags, (vs, ts), ta, tb, tc) =>
+                   match mkmesh flags vs ts with
+                   | Ok m =>
+                       0 :: dump m ++
+                       match rbind (save_fmt fa (lookup ta) m) (fun f =>
+                             rbind (load_fmt fa f) (fun m1 =>
+                             rbind (save_fmt fb (lookup tb) (update (retouch m1))) (fun f2 =>
+                             rbind (load_fmt fb f2) (fun m2 =>
+                             rbind (save_fmt fc (lookup tc) (update (retouch m2))) (fun f3 => load_fmt fc f3))))) with
+                       | Ok m' => 0 :: dump m'
+                       | Fail => [33] | Throw => [32]
+                       end
+                   | _ => [30]
+                   end)
   | _ => [-1]
   end.
